@@ -301,8 +301,7 @@ def _enum_4(tier, shard, nshards):
 
 def _drawn_4(tier):
     m4 = st.one_of(G.masks(4), G.masks(4), G.dag_biased(4), G.cycle_biased(4), G.layered(4))
-    return st.lists(G.drawn_graph(4, m4), min_size=6, max_size=10).map(
-        lambda gs: {'graphs': gs})
+    return G.batch_of(G.drawn_graph(4, m4), (1, 8, 6, 10, 8, 9))
 
 
 @st.composite
@@ -317,7 +316,7 @@ def _big_graph(draw):
 
 
 def _random_big(tier):
-    return st.lists(_big_graph(), min_size=2, max_size=4).map(lambda gs: {'graphs': gs})
+    return G.batch_of(_big_graph(), (1, 3, 2, 4, 3, 4))
 
 
 SUBS = [
